@@ -11,16 +11,16 @@ FEAT=""; if echo "$DCMD" | grep -q "features shortdeck"; then FEAT="--features s
 REL=""; if echo "$DCMD" | grep -q -- "--release"; then REL="--release"; fi
 if [[ "$DEMO" == *main* ]]; then mkdir -p examples; cp $S/$DEMO examples/verif_demo.rs; RUN="cargo run --offline $REL $FEAT --example verif_demo"; else mkdir -p tests; cp $S/$DEMO tests/verif_demo.rs; RUN="cargo test --offline $REL $FEAT --test verif_demo"; fi
 echo "== clean tree: demo must pass"
-$RUN > /tmp/confirm_clean.log 2>&1; C=$?
+$RUN > $W/.confirm_clean.log 2>&1; C=$?
 git apply $S/patch.diff || { echo "PATCH DOES NOT APPLY"; exit 2; }
 echo "== patched: build (+shortdeck), suite, demo must fail"
-cargo build --offline > /tmp/confirm_build.log 2>&1; B=$?
-cargo build --offline --features shortdeck > /tmp/confirm_build_s.log 2>&1; BS=$?
-cargo test --workspace --no-fail-fast --offline --lib > /tmp/confirm_suite.log 2>&1
-SUITE=$(grep -E "^test result" /tmp/confirm_suite.log | head -1)
-$RUN > /tmp/confirm_patched.log 2>&1; P=$?
+cargo build --offline > $W/.confirm_build.log 2>&1; B=$?
+cargo build --offline --features shortdeck > $W/.confirm_build_s.log 2>&1; BS=$?
+cargo test --workspace --no-fail-fast --offline --lib > $W/.confirm_suite.log 2>&1
+SUITE=$(grep -E "^test result" $W/.confirm_suite.log | head -1)
+$RUN > $W/.confirm_patched.log 2>&1; P=$?
 git checkout -q -- src
 rm -f tests/verif_demo.rs examples/verif_demo.rs
 rmdir tests examples 2>/dev/null
 echo "clean_demo_exit=$C build=$B build_short=$BS suite=[$SUITE] patched_demo_exit=$P"
-if [ $C -eq 0 ] && [ $B -eq 0 ] && [ $BS -eq 0 ] && [ $P -ne 0 ] && echo "$SUITE" | grep -q "91 passed; 0 failed"; then echo CONFIRMED; else echo NOT-CONFIRMED; grep -E "panicked|FAILED|error" /tmp/confirm_patched.log | head -5; fi
+if [ $C -eq 0 ] && [ $B -eq 0 ] && [ $BS -eq 0 ] && [ $P -ne 0 ] && echo "$SUITE" | grep -q "91 passed; 0 failed"; then echo CONFIRMED; else echo NOT-CONFIRMED; grep -E "panicked|FAILED|error" $W/.confirm_patched.log | head -5; fi
